@@ -16,6 +16,7 @@ EXTENDS Integers, Sequences, TLC
 CONSTANTS High, Low,     \* write buffer water marks
           Win,           \* the peer's receive window
           Sizes,         \* write sizes
+          MaxBuf,        \* bound on the buffered amount
           MaxOps,
           PrintAt,
           NoWait,        \* sensitivity: drain never waits
@@ -57,7 +58,7 @@ Finish(p, l) ==
     ELSE UNCHANGED <<dr, res, resWp>>
 
 Write(k) ==
-    /\ More /\ lost = "no"
+    /\ More /\ lost = "no" /\ buf + k <= MaxBuf
     /\ LET b1 == buf + k
            p == Min(b1, win) IN
          /\ buf' = b1 - p /\ win' = win - p
